@@ -37,7 +37,7 @@ func init() {
 	register(&Prop{
 		ID:         "C09",
 		Title:      "The expression front end is total and strict",
-		Decided:    "absence of run-time faults, progress, and the parser's acceptance condition, over every function of interpreter and interpreter/language reachable from Language.Match/Update: (R1) every single-result type assertion is dominated by facts that establish the asserted dynamic type (type-tag tests, matchTypes, same-type classes, type switches, earlier comma-ok, facts established at all call sites, constant-specialised callee results); (R2) every slice/string index and slice expression is bounded: range/count-down loop indices, constant indices under an established length, two-sided guards – three sites rest on named assumptions; (R3) nil discipline: every nil result of a parse function is accompanied by a recorded error, both entry points either assign the parsed expression or record an error on every path, and Match/Update test the parser's errors before evaluating; (R4) every loop either iterates over a finite container / counts, or consumes input on every cycle; (R5) every recursive cycle contains a progressing edge (a token consumed before the call, or an argument that is a strict sub-term of a parameter, or a visited-set guard); (R6) strictness: the whole input must be one sentence – a second sentence records an error; (R7) an evaluation error object always becomes an error return of Match/Update; (R6) a malformed operand is only noticed when it is evaluated: every node evaluator evaluates all its operands, and every member of a list operand, before it returns a non-error result (= C16.R8); (R8) wherever the parser builds an identifier node from the current token by a direct call (operands of BETWEEN, path members) the token kind has just been checked (expectPeek(IDENT) or an equivalent test) – otherwise an operator, a parenthesis or the end of input is taken for a name and a non-sentence is evaluated; and the lexer produces the end-of-input token only under a test of its position against the input length, so a NUL byte inside the expression does not cut it short.",
+		Decided:    "absence of run-time faults, progress, and the parser's acceptance condition, over every function of interpreter and interpreter/language reachable from Language.Match/Update: (R1) every single-result type assertion is dominated by facts that establish the asserted dynamic type (type-tag tests, matchTypes, same-type classes, type switches, earlier comma-ok, facts established at all call sites, constant-specialised callee results); (R2) every slice/string index and slice expression is bounded: range/count-down loop indices, constant indices under an established length, two-sided guards – three sites rest on named assumptions; (R3) nil discipline: every nil result of a parse function is accompanied by a recorded error, both entry points either assign the parsed expression or record an error on every path, and Match/Update test the parser's errors before evaluating; (R4) every loop either iterates over a finite container / counts, or consumes input on every cycle; (R5) every recursive cycle contains a progressing edge (a token consumed before the call, or an argument that is a strict sub-term of a parameter, or a visited-set guard); (R6) strictness: the whole input must be one sentence – a second sentence records an error; (R7) an evaluation error object always becomes an error return of Match/Update; (R9) a malformed operand is only noticed when it is evaluated: every node evaluator evaluates all its operands, and every member of a list operand, before it returns a non-error result (= C16.R8); (R8) wherever the parser builds an identifier node from the current token by a direct call (operands of BETWEEN, path members) the token kind has just been checked (expectPeek(IDENT) or an equivalent test) – otherwise an operator, a parenthesis or the end of input is taken for a name and a non-sentence is evaluated; and the lexer produces the end-of-input token only under a test of its position against the input length, so a NUL byte inside the expression does not cut it short.",
 		NotDecided: "that every ungrammatical string is rejected by the inner productions (R3/R6 decide the top-level acceptance condition and 'nil implies error'); stack depth for deeply nested but finite inputs; arithmetic overflow in list indexes converted from float64.",
 		Assumes:    []string{"objects and AST nodes are finite acyclic trees built from finite inputs (structural-descent recursion terminates)", "Lexer.readPosition/position are only ever increased from zero (verified: the only stores are in readChar)"},
 		Rules: []RuleDef{
@@ -48,7 +48,7 @@ func init() {
 			{ID: "R5", Desc: "recursive cycles contain a progressing edge (T-PROG)", Run: c09R5},
 			{ID: "R6", Desc: "the whole input is one sentence (strictness)", Run: c09R6},
 			{ID: "R7", Desc: "evaluation errors surface as errors of Match/Update (T-DOM)", Run: c09R7},
-			{ID: "R6", Desc: "strictness: every operand and every list member is evaluated before a non-error result (= C16.R8)", Run: aliasRule("R6", c16R8, nil)},
+			{ID: "R9", Desc: "strictness: every operand and every list member is evaluated before a non-error result (= C16.R8)", Run: aliasRule("R9", c16R8, nil)},
 			{ID: "R8", Desc: "the parser takes an identifier only from a token known to be one, and the lexer ends the input only at its end (T-GUARD)", Run: c09R8},
 		},
 	})
@@ -304,6 +304,56 @@ func (e *Engine) errorRecorders() map[*ssa.Function]bool {
 			if a.Kind == "store-field" && !a.Fresh {
 				out[fn] = true
 			}
+		}
+	}
+	// a function that calls a recorder on every path to its returns records as well (peekError → addError)
+	for changed := true; changed; {
+		changed = false
+		for _, fn := range e.funcs("lang") {
+			if out[fn] || fn.Blocks == nil {
+				continue
+			}
+			rets := returnsOf(fn)
+			if len(rets) == 0 {
+				continue
+			}
+			all := true
+			for _, r := range rets {
+				dom := false
+				instrs(fn, func(in ssa.Instruction) {
+					if c, ok := in.(*ssa.Call); ok && c.Call.StaticCallee() != nil && out[c.Call.StaticCallee()] && idominates(in, r) {
+						dom = true
+					}
+				})
+				if !dom {
+					all = false
+				}
+			}
+			if all {
+				out[fn] = true
+				changed = true
+			}
+		}
+	}
+	return out
+}
+
+// mayRecord: functions that can record a parser error on some path (recorders and their static callers, two levels).
+func (e *Engine) mayRecord() map[*ssa.Function]bool {
+	out := map[*ssa.Function]bool{}
+	for fn := range e.errorRecorders() {
+		out[fn] = true
+	}
+	for i := 0; i < 2; i++ {
+		for _, fn := range e.funcs("lang") {
+			if out[fn] {
+				continue
+			}
+			instrs(fn, func(in ssa.Instruction) {
+				if c, ok := in.(*ssa.Call); ok && c.Call.StaticCallee() != nil && out[c.Call.StaticCallee()] {
+					out[fn] = true
+				}
+			})
 		}
 	}
 	return out
@@ -1037,6 +1087,7 @@ func c09R5(e *Engine) {
 
 func c09R6(e *Engine) {
 	rec := e.errorRecorders()
+	may := e.mayRecord()
 	for _, name := range []string{"Parser.ParseConditionalExpression", "Parser.ParseUpdateExpression"} {
 		fn := e.fn("lang", name)
 		if !e.anchor("R6", "lang."+name, fn == nil) {
@@ -1069,7 +1120,7 @@ func c09R6(e *Engine) {
 				// assigned once: afterwards the next token must be tested against EOF with an error on mismatch
 				tested := false
 				instrs(fn, func(in ssa.Instruction) {
-					if e.isErrorRecord(in, rec) && mayFollow(st, in) {
+					if (e.isErrorRecord(in, rec) || e.isErrorRecord(in, may)) && mayFollow(st, in) {
 						tested = true
 					}
 					if c, isC := in.(*ssa.Call); isC && mayFollow(st, in) {
@@ -1140,6 +1191,12 @@ func c09R7(e *Engine) {
 				}
 				if o, isT := typeCallOn(bo.X); isT && sameObj(o, evalCall) {
 					if s, isC := constString(bo.Y); isC && s == "ERR" && ((bo.Op == token.EQL && !cd.Val) || (bo.Op == token.NEQ && cd.Val)) {
+						guarded = true
+					}
+				}
+				// … or the test is made by a helper that turns an error object into a Go error: h(result) == nil
+				if x, nonNilOnTrue, isNT := nilTest(bo); isNT && cd.Val != nonNilOnTrue {
+					if hc, isCall := strip(x).(*ssa.Call); isCall && len(hc.Call.Args) == 1 && sameObj(hc.Call.Args[0], evalCall) && errorObjectGate(hc.Call.StaticCallee()) {
 						guarded = true
 					}
 				}
@@ -1340,4 +1397,35 @@ func c09R8(e *Engine) {
 			e.pass("R8", "lang.Lexer.NextToken:eof-only-at-end", e.pos(nt.Pos()), "EOF is produced under a comparison of the position with len(input)")
 		}
 	}
+}
+
+// errorObjectGate: h(obj) error returns nil only on the edge where obj.Type() is not the error type.
+func errorObjectGate(h *ssa.Function) bool {
+	if h == nil || h.Blocks == nil || len(h.Params) != 1 || h.Signature.Results().Len() != 1 || !isErrorType(h.Signature.Results().At(0).Type()) {
+		return false
+	}
+	n := 0
+	for _, r := range returnsOf(h) {
+		if !isNilConst(retVals(r)[0]) {
+			continue
+		}
+		n++
+		guarded := false
+		for _, cd := range condsAt(r.Block()) {
+			cd = normCond(cd)
+			bo, isB := cd.V.(*ssa.BinOp)
+			if !isB {
+				continue
+			}
+			if o, isT := typeCallOn(bo.X); isT && strip(o) == ssa.Value(h.Params[0]) {
+				if s, isC := constString(bo.Y); isC && s == "ERR" && ((bo.Op == token.EQL && !cd.Val) || (bo.Op == token.NEQ && cd.Val)) {
+					guarded = true
+				}
+			}
+		}
+		if !guarded {
+			return false
+		}
+	}
+	return n > 0
 }
